@@ -131,6 +131,11 @@ def function(lang, name, kind, chain, sibling=False):
             return [f"const {name} = function ({params}) {{"] + ind(body, 1) + ["};"], 0
         if kind == "generator":
             return [f"function* {name}({params}) {{"] + ind(body, 1) + ["}"], 0
+        # functions that sit inside the expression body of an arrow function (curried chain / callback)
+        if kind == "curried-arrow":
+            return [f"const {name} = (store{': any' if ts else ''}) => (next{': any' if ts else ''}) => ({params}) => {{"] + ind(body, 1) + ["};"], 0
+        if kind == "callback-in-expression-arrow":
+            return [f"const {name} = ({params}) => xs.forEach(function (item{': any' if ts else ''}) {{"] + ind(body, 1) + ["});"], 0
     else:
         params = "c: bool, d: bool, n: i32, v: i32"
         if kind == "function":
@@ -144,6 +149,6 @@ def function(lang, name, kind, chain, sibling=False):
 
 def kinds(lang):
     return {"python": ("function", "async", "method", "decorated"),
-            "typescript": ("function", "async", "method", "arrow", "function-expression", "generator"),
-            "javascript": ("function", "async", "method", "arrow", "function-expression", "generator"),
+            "typescript": ("function", "async", "method", "arrow", "function-expression", "generator", "curried-arrow", "callback-in-expression-arrow"),
+            "javascript": ("function", "async", "method", "arrow", "function-expression", "generator", "curried-arrow", "callback-in-expression-arrow"),
             "rust": ("function", "async", "method")}[lang]
